@@ -91,10 +91,13 @@ IsRequest(x) ==
     \/ x.msg.k = "Command" /\ \E nm \in {N_connect, N_createStream, N_play, N_publish, N_deleteStream} : BytesEq(x.msg.name, Lit(nm))
     \/ x.msg.k = "Data" /\ Len(x.msg.vals) >= 1 /\ StrIs(x.msg.vals[1], N_setDataFrame)
 
+\* the input an expected observation belongs to (see Trace_Server: batches)
+Item(e) == IF "j" \in DOMAIN e THEN Ev.i.items[e.j] ELSE Ev.i
+
 EvMatch(e, x) ==
     /\ e.o = x.o
-    /\ CASE e.o = "Media" -> x.kind = e.kind /\ x.ts = e.ts /\ BytesEq(x.data, Ev.i.data)
-         [] e.o = "Metadata" -> x.meta = Ev.i.meta
+    /\ CASE e.o = "Media" -> x.kind = e.kind /\ x.ts = e.ts /\ BytesEq(x.data, Item(e).data)
+         [] e.o = "Metadata" -> x.meta = Item(e).meta
          [] OTHER -> TRUE
 
 IsEventObs(e) == e.o \in Constrained
@@ -130,12 +133,27 @@ DoNew ==
     /\ cfg' = Ev.cfg
     /\ Advance
 
+\* one input call that delivered several complete messages (see Trace_Server).  Not judged when the model refuses an item,
+\* leaves an item's treatment open ("NoEvent": an error or silence are both fine) or the item is a malformed status.
+RECURSIVE FoldCli(_, _, _)
+FoldCli(s, items, k) ==
+    IF k > Len(items) THEN [st |-> s, obs |-> <<>>, bad |-> FALSE]
+    ELSE LET it   == [fresh |-> -1] @@ items[k]
+             r    == CliStep(s, it)
+             rest == FoldCli(r.st, items, k + 1)
+         IN  [st |-> rest.st,
+              obs |-> [n \in 1 .. Len(r.obs) |-> [j |-> k] @@ r.obs[n]] \o rest.obs,
+              bad |-> rest.bad \/ r.obs = CErr \/ r.obs = <<[o |-> "NoEvent"]>> \/ (it.m = "onStatus" /\ it.code = "malformed")]
+
 DoStep ==
     LET i0  == Ev.i
         rs  == Ev.results
         fr  == FreshOf(i0, rs)
         i   == [fresh |-> fr] @@ i0
-        r   == CliStep(st, i)
+        isBatch == i0.m = "batch"
+        fb  == FoldCli(st, i0.items, 1)
+        unjudged == isBatch /\ fb.bad
+        r   == IF isBatch THEN [st |-> fb.st, obs |-> fb.obs] ELSE CliStep(st, i)
         exE == ExpEvents(r.obs)
         exO == ExpOuts(r.obs)
         gotE == Events(rs)
@@ -152,7 +170,8 @@ DoStep ==
         \* emitted or changed
         lenient == i0.m = "onStatus" /\ i0.code = "malformed"
         verdictCli ==
-            IF lenient THEN (IF Len(gotE) # 0 \/ (\E k \in 1 .. Len(gotO) : IsRequest(gotO[k])) \/ Ev.probe.state # prevProbe.state
+            IF unjudged THEN ""
+            ELSE IF lenient THEN (IF Len(gotE) # 0 \/ (\E k \in 1 .. Len(gotO) : IsRequest(gotO[k])) \/ Ev.probe.state # prevProbe.state
                              THEN "malformed status message was acted upon" ELSE "")
             ELSE IF noEvent THEN (IF Len(gotE) # 0 THEN "event raised in a state that does not permit it (" \o i0.m \o ")" ELSE "")
             ELSE IF Ev.res # "ok" /\ ~wantErr THEN "call failed where the workflow prescribes a result: " \o Ev.res
@@ -178,16 +197,16 @@ DoStep ==
             /\ IF ackBad THEN Say("ACK", IF a.ack = <<>> THEN "acknowledgement emitted although the window was not reached"
                                          ELSE "window reached: exactly one acknowledgement carrying the byte count must be emitted by this call")
                ELSE TRUE
-            /\ IF verdictCli = "" /\ ~ProbeOK(Ev.probe, r.st) THEN Say("PROBE", "session state differs from the model after " \o i0.m) ELSE TRUE
+            /\ IF verdictCli = "" /\ ~unjudged /\ ~ProbeOK(Ev.probe, r.st) THEN Say("PROBE", "session state differs from the model after " \o i0.m) ELSE TRUE
             /\ IF verdictCli = "" /\ ~ClockOK(SelectSeq(rs, LAMBDA x : x.k = "out"), Ev.clk) THEN Say("SHAPE", "a control message does not carry the session uptime (" \o i0.m \o ")") ELSE TRUE
-            /\ IF verdictCli = "" /\ Ev.res = "ok" /\ ~InfoOK(i0, rs) THEN Say("SHAPE", "informational results differ from the usual ones (" \o i0.m \o ")") ELSE TRUE
-            /\ IF verdictCli = "" /\ ~wantErr /\ ~noEvent /\ ~ShapeOK(r.obs, gotO) THEN Say("SHAPE", "reaction to " \o i0.m \o " does not consist of the usual messages") ELSE TRUE
+            /\ IF verdictCli = "" /\ ~isBatch /\ Ev.res = "ok" /\ ~InfoOK(i0, rs) THEN Say("SHAPE", "informational results differ from the usual ones (" \o i0.m \o ")") ELSE TRUE
+            /\ IF verdictCli = "" /\ ~isBatch /\ ~wantErr /\ ~noEvent /\ ~ShapeOK(r.obs, gotO) THEN Say("SHAPE", "reaction to " \o i0.m \o " does not consist of the usual messages") ELSE TRUE
     /\ st' = r.st
     /\ prevProbe' = Ev.probe
     /\ win' = IF Ev.ev = "In" /\ i0.m = "winack" /\ Ev.res = "ok" THEN <<i0.v>> ELSE win
     /\ pend' = IF Ev.ev = "In" /\ i0.m = "winack" /\ win = <<>> THEN FromNat(Ev.probe.pending)
                ELSE IF ackBad THEN FromNat(Ev.probe.pending) ELSE a.pend
-    /\ dead' = (dead \/ verdictCli # "")
+    /\ dead' = (dead \/ verdictCli # "" \/ unjudged)
     /\ UNCHANGED cfg
     /\ Advance
 
